@@ -1,5 +1,6 @@
 #include "checks.h"
 #include <sys/mman.h>
+#include <time.h>
 #include "oracles.h"
 #include "mon.h"
 #include "specdec.h"
@@ -263,6 +264,8 @@ static RunOutcome check_format(const std::string &prop, const Plan &P) {
 
 // ------------------------------------------------------------------ isolation: evaluate one crash image / altered image in a forked child,
 // so that a crash, sanitizer abort or wall-clock hang inside the library is one more outcome and the enumeration goes on.
+double g_enumeration_deadline = 0;
+static bool past_enumeration_deadline() { if (g_enumeration_deadline <= 0) return false; struct timespec ts; clock_gettime(CLOCK_MONOTONIC, &ts); return ts.tv_sec + ts.tv_nsec / 1e9 > g_enumeration_deadline; }
 struct IsoOut { Violations v; RunOutcome o; bool died = false; std::string death_cls, death_detail; int death_op = -1; };
 // A child that dies without a symbolised library frame (e.g. SIGSEGV inside libc's memcpy called by the library) is still the
 // library's doing when it was inside a library call made with valid arguments: name the call instead of giving up ("?" = harness).
@@ -483,6 +486,7 @@ static RunOutcome check_crash(const std::string &prop, const Plan &P, int tier) 
         }
         std::vector<uint8_t> img;
         for (auto &pt : points) {
+            if (past_enumeration_deadline()) { out.ctr["enumeration_cut_by_budget"]++; break; }
             size_t k = pt.first, b = pt.second;
             simfs::image(&logfile, k, b, img);
             uint64_t ih = fnv1a(img.data(), img.size());
@@ -667,6 +671,7 @@ static RunOutcome check_corrupt(const std::string &prop, const Plan &P, int tier
             }
             const char *PATH_X = "/sim/alt.jls";
             for (auto &a : alts) {
+                if (past_enumeration_deadline()) { out.ctr["enumeration_cut_by_budget"]++; break; }
                 std::vector<uint8_t> img = F; alter_apply(img, a);
                 if (img == F) continue;
                 // classification per protected region
